@@ -108,6 +108,9 @@ class ConfigParser(ABC):
             acl_type, name = h.findall2(regex, acl_key)
             if not name:
                 continue
+            # global commands: "ip access-list log-update threshold 10", "ip access-list persistent"
+            if " " in name or (not acl_cfg and not acl_type and self.platform != "nxos"):
+                continue
             if names is None or name in names:
                 acl_type = h.init_type(type=acl_type, platform=self.platform)
                 acl_d: DAny = dict(
